@@ -128,7 +128,11 @@ func methodArgPool() []starlark.Value {
 	return []starlark.Value{
 		starlark.MakeInt(10), starlark.MakeInt(99), starlark.String("a"), starlark.String("zz"), starlark.MakeInt(0),
 		starlark.NewList([]starlark.Value{starlark.MakeInt(99)}),
-		func() starlark.Value { d := starlark.NewDict(1); d.SetKey(starlark.String("zz"), starlark.MakeInt(1)); return d }(),
+		func() starlark.Value {
+			d := starlark.NewDict(1)
+			d.SetKey(starlark.String("zz"), starlark.MakeInt(1))
+			return d
+		}(),
 		starlark.Tuple{starlark.Tuple{starlark.String("zz"), starlark.MakeInt(1)}},
 		func() starlark.Value { s := starlark.NewSet(1); s.Insert(starlark.MakeInt(10)); return s }(),
 	}
